@@ -11,6 +11,7 @@ TEXT = ("A single-instance property: the decisive evidence is the computation â€
 TECHNIQUE = "computation (regenerate + byte diff over generations) + Lean 4 theorems over the wiring table regenerated from the checked-in file + model-vs-implementation compile of the self configuration"
 LEAN_PROPS = ["C19"]
 TRUSTED = ["go build of the scratch copy", "byte equality is computed, not proved"]
+DETERMINISTIC = True   # no random generation: further thorough rounds would repeat the same cases
 ASSUMPTIONS = []
 
 SELF = ["internal/gontainer/gontainer.yaml", "internal/gontainer/gontainer_*.yaml"]
